@@ -638,6 +638,13 @@ func main() {
 		}
 	}
 	r.Set("conversations_error_argument_shapes", errConvs)
+	// file indexes that are not 0 but would be after a narrowing conversion
+	// (multiples of 2^32, of 2^31, 2^63, 2^64): refused like any other index
+	for _, idx := range []string{"4294967296", "8589934592", "-4294967296", "2147483648", "-2147483648", "9223372036854775808", "18446744073709551616", "12884901888"} {
+		convs = append(convs,
+			&conv{machine: recipientMachine, ui: uiCfg{1, 1, 1, 0}, msgs: []msg{st("rs-idx"+idx, "recipient-stanza", []string{idx, "fake"}, body32), terminals[0]}, id: len(convs)},
+			&conv{machine: identityMachine, ui: uiCfg{1, 1, 1, 0}, msgs: []msg{st("fk-idx"+idx, "file-key", []string{idx}, body16), terminals[0]}, id: len(convs) + 1})
+	}
 	// WaitTimer: a 5.5 s silence must trigger the callback, a fast conversation must not
 	nTimer := r.Pick(1, 3)
 	for i := 0; i < nTimer; i++ {
@@ -670,6 +677,27 @@ func main() {
 	t := true
 	r.Exhaustive = &t
 
+	// VERIF_C16_SUBSET=numeric: only the conversations whose point is a NUMBER
+	// in a message (file indexes, error indexes). ./check runs this subset with
+	// a 32-bit build of the monitor in the quick tier too.
+	numericOnly := os.Getenv("VERIF_C16_SUBSET") == "numeric"
+	if numericOnly {
+		var keep []*conv
+		for _, c := range convs {
+			for _, m := range c.msgs {
+				if strings.HasPrefix(m.name, "rs-idx") || strings.HasPrefix(m.name, "fk-idx") || strings.HasPrefix(m.name, "error[") ||
+					m.name == "rs1" || m.name == "fk1" || m.name == "rs-neg" || m.name == "fk-neg" || m.name == "rsx" || m.name == "fkx" {
+					if len(c.msgs) <= 3 && !c.timer && !c.helper {
+						keep = append(keep, c)
+					}
+					break
+				}
+			}
+		}
+		convs = keep
+		r.MinEvals, r.MinDistinct = 50, 50
+		r.Set("subset", "numeric fields of plugin messages only")
+	}
 	// worker k owns plugin name k. After a few confirmed hangs the sweep stops:
 	// every further conversation that ends in a closed stdout would cost the
 	// plugin's whole self-destruct delay, and the verdict is already decided.
@@ -696,14 +724,16 @@ func main() {
 	wg.Wait()
 	r.Set("most_conversations_on_one_ClientUI", maxOnOneUI.convs)
 	r.Set("most_plugin_messages_on_one_ClientUI", maxOnOneUI.msgs)
-	if maxOnOneUI.msgs < 2000 && hangs.Load() == 0 {
+	if maxOnOneUI.msgs < 2000 && hangs.Load() == 0 && !numericOnly {
 		r.Inconclusive("no ClientUI value saw 2000 plugin messages (most: %d)", maxOnOneUI.msgs)
 	}
-	fuzzStreams(r, env, names)
-	deafStage(r, env, names[0], convs)
-	cliAbort(r, env)
-	afterFailedPhase1(r, env)
-	helperStage(r, env, names[0], convs)
+	if !numericOnly {
+		fuzzStreams(r, env, names)
+		deafStage(r, env, names[0], convs)
+		cliAbort(r, env)
+		afterFailedPhase1(r, env)
+		helperStage(r, env, names[0], convs)
+	}
 	if hangs.Load() >= 3 {
 		r.Set("sweep_stopped_early_after_hangs", true)
 	}
